@@ -129,6 +129,9 @@ func (c *checker) partB() {
 		absent, ts, m := mkBes(i)
 		cs := &caseInfo{Part: "B", Shape: fmt.Sprintf("backends=%v absent=%v", ts, absent), Text: prototext.Format(m)}
 		v := backendsOK(ts)
+		if absent {
+			v = verdict{expect: dontcare, undecided: []string{"sub-message-absent"}}
+		}
 		var bm ctfe.LogBackendMap
 		var err error
 		pan, msg, stack := enum.Catch(func() { bm, err = ctfe.BuildLogBackendMap(m) })
@@ -141,6 +144,11 @@ func (c *checker) partB() {
 	done := enum.ParFor(len(logLists), r.Expired, func(i int) {
 		absent, ts, m, desc := mkLogs(i)
 		cs := &caseInfo{Part: "B", Shape: "logs=" + desc, Text: prototext.Format(m)}
+		for _, l := range ts {
+			if l.id < 0 {
+				cs.Feature = " [negative log_id]"
+			}
+		}
 		v := logsOK(ts, false, nil)
 		var err error
 		pan, msg, stack := enum.Catch(func() { err = ctfe.ValidateLogConfigs(m.GetConfig()) })
@@ -222,8 +230,18 @@ func (c *checker) evalMulti(ix []int,
 		bdesc = "absent"
 	}
 	cs := &caseInfo{Part: "B", Shape: "backends=" + bdesc + " logs=" + ldesc}
+	for _, l := range lts {
+		if l.id < 0 {
+			cs.Feature = " [negative log_id]"
+		}
+	}
 	r.Add("multi_configs", 1)
 	v := and(backendsOK(bts), logsOK(lts, true, bts))
+	if v.expect == yes && (beAbsent || logAbsent) {
+		// nothing is wrong with what is there, but a whole sub-message is missing: whether that is
+		// acceptable is not decided by the statement (the file loaders refuse it). No panic is all that is asked.
+		v = verdict{expect: dontcare, undecided: []string{"sub-message-absent"}}
+	}
 	if v.expect == yes || len(v.broken) == 1 {
 		r.Nontrivial(cs.key())
 	}
